@@ -37,6 +37,7 @@ KF_F37 = "C01:to_json_schema:readOnly-ignored-when-type-object-is-not-declared"
 KF_F39 = "C01:draw:NUL-character-although-allow_x00-is-off:in-unconstrained-json-value"
 KF_F39B = "C01:draw:string-not-encodable-in-the-configured-codec:in-unconstrained-json-value"
 KF_F40 = "C01:draw:header-or-cookie-value-not-encodable-in-the-configured-codec"
+KF_FC01A = "C01:draw:NUL-character-although-allow_x00-is-off:in-http-bearer-Authorization-header-of-a-security-scheme"
 KF_F38 = "C01:_find_quantified_end:lazy-or-possessive-suffix-cut-off-in-multi-part-pattern"
 KF_F38B = "C01:_find_quantified_end:escaped-quantifier-character-taken-for-a-quantifier-in-multi-part-pattern"
 KF_F38C = "C01:_handle_anchored_pattern:non-capturing-group-text-out-of-step-with-parse-tree"
@@ -95,14 +96,30 @@ def _forbidden(sub, mode):
 _OAS_CACHE: dict = {}
 
 
-def make_oas_validator(nn: str, mode: str = "request", draft4: bool = True):
-    key = (nn, mode, draft4)
+def make_oas_validator(nn: str, mode: str = "request", draft4: bool = True, intfloat: bool = False):
+    key = (nn, mode, draft4, intfloat)
     if key not in _OAS_CACHE:
-        _OAS_CACHE[key] = _make_oas_validator(nn, mode, draft4)
+        _OAS_CACHE[key] = _make_oas_validator(nn, mode, draft4, intfloat)
     return _OAS_CACHE[key]
 
 
-def _make_oas_validator(nn: str, mode: str = "request", draft4: bool = True):
+def _int_or_integral_float(checker, inst):
+    return (isinstance(inst, int) and not isinstance(inst, bool)) or (isinstance(inst, float) and inst.is_integer())
+
+
+def has_integral_float(x):
+    if isinstance(x, float):
+        return x.is_integer()
+    if isinstance(x, dict):
+        return any(has_integral_float(v) for v in x.values())
+    if isinstance(x, (list, tuple)):
+        return any(has_integral_float(v) for v in x)
+    return False
+
+
+def _make_oas_validator(nn: str, mode: str = "request", draft4: bool = True, intfloat: bool = False):
+    """`intfloat`: read a float without fractional part (1.0, 2e61) as an integer — the reading of JSON Schema draft 6+ and of
+    hypothesis-jsonschema; draft 4 proper reads it as a non-integer number. Both are defensible for an OpenAPI document."""
     base = jsonschema.Draft4Validator if draft4 else jsonschema.Draft202012Validator
 
     def properties(validator, props, instance, schema):
@@ -123,7 +140,8 @@ def _make_oas_validator(nn: str, mode: str = "request", draft4: bool = True):
             if isinstance(k, str) and k not in instance and not _forbidden(props.get(k), mode):
                 yield ValidationError(f"{k!r} is required")
 
-    cls = validators.extend(base, {"properties": properties, "required": required})
+    cls = validators.extend(base, {"properties": properties, "required": required},
+                            type_checker=base.TYPE_CHECKER.redefine("integer", _int_or_integral_float) if intfloat else None)
 
     class OAS(cls):  # type: ignore[misc,valid-type]
         def iter_errors(self, instance, _schema=None):
@@ -140,8 +158,8 @@ def _make_oas_validator(nn: str, mode: str = "request", draft4: bool = True):
     return OAS
 
 
-def oas_valid(schema, instance, nn, root=None, mode="request", draft4=True):
-    cls = make_oas_validator(nn, mode, draft4)
+def oas_valid(schema, instance, nn, root=None, mode="request", draft4=True, intfloat=False):
+    cls = make_oas_validator(nn, mode, draft4, intfloat)
     with warnings.catch_warnings():
         warnings.simplefilter("ignore")
         if root is not None:
@@ -155,6 +173,13 @@ def js_valid(schema, instance, root=None):
         if root is not None:
             return jsonschema.Draft4Validator(schema, resolver=jsonschema.RefResolver.from_schema(root)).is_valid(instance)
         return jsonschema.Draft4Validator(schema).is_valid(instance)
+
+
+def js_valid_lenient(schema, instance):
+    """plain JSON Schema validity under either reading of integral floats"""
+    if js_valid(schema, instance):
+        return True
+    return has_integral_float(instance) and oas_valid(schema, instance, "\0none", intfloat=True)
 
 
 # ---- the real code --------------------------------------------------------------------------------------------------
@@ -188,6 +213,8 @@ def both_anchored(p):
 
 
 def cfg_for(chk, schema, nn, resp=False, updq=True, **over):
+    # `upd`: the text the real update_quantifier returns (its tree-level model is compared in the regex mechanisms);
+    # `anchItems`: the parse tree of each pattern, on which the model itself decides `is_anchored`
     upd, anch, seen = [], [], set()
     for p, lo, hi in G.pattern_requests(schema):
         out = impl_upd(p, lo, hi)
@@ -195,9 +222,13 @@ def cfg_for(chk, schema, nn, resp=False, updq=True, **over):
             upd.append([p, lo, hi, out])
         if p not in seen:
             seen.add(p)
-            anch.append([p, both_anchored(p)])
+            try:
+                re.compile(p)
+                anch.append([p, sre_items(p)])
+            except Exception:  # noqa: BLE001 - invalid pattern: is_anchored answers False, as the model's default does
+                pass
     cfg = {"vForbid": chk.variants.get("forbid_properties", "asFound"), "vLen": chk.variants.get("length_drop", "asFound"),
-           "nn": nn, "resp": resp, "updQ": updq, "upd": upd, "anch": anch}
+           "nn": nn, "resp": resp, "updQ": updq, "upd": upd, "anchItems": anch}
     cfg.update(over)
     return cfg
 
@@ -497,10 +528,28 @@ def re_node(op, av):
 AT_KINDS = None
 
 
+_ITEMS_CACHE: dict = {}
+
+
 def sre_items(pattern):
-    """pattern text -> top-level Item JSON, as `_handle_parsed_pattern` sees it"""
+    """pattern text -> top-level Item JSON, as `_handle_parsed_pattern` sees it (memoised; raises on an invalid pattern)"""
+    hit = _ITEMS_CACHE.get(pattern)
+    if hit is None:
+        try:
+            hit = _sre_items(pattern)
+        except Exception as e:  # noqa: BLE001
+            hit = e
+        if len(_ITEMS_CACHE) < 200000:
+            _ITEMS_CACHE[pattern] = hit
+    if isinstance(hit, Exception):
+        raise hit
+    return hit
+
+
+def _sre_items(pattern):
     sre, sre_parse = _sre()
-    kinds = {sre.AT_BEGINNING: "bos", sre.AT_BEGINNING_STRING: "bosA", sre.AT_END: "eos", sre.AT_END_STRING: "eosZ"}
+    kinds = {sre.AT_BEGINNING: "bos", sre.AT_BEGINNING_STRING: "bosA", sre.AT_END: "eos", sre.AT_END_STRING: "eosZ",
+             sre.AT_BOUNDARY: "wordB", sre.AT_NON_BOUNDARY: "nonWordB"}
     items = []
     for op, av in sre_parse.parse(pattern):
         if op == sre.AT:
@@ -516,22 +565,99 @@ def sre_items(pattern):
     return items
 
 
-RX_STRINGS = None
+RX_POOLS: dict = {}
 
 
-def rx_strings():
-    global RX_STRINGS
-    if RX_STRINGS is None:
+def rx_strings(thorough=False):
+    """the fixed string pool of the replay: every string over a 4-letter alphabet up to length 4 (quick) / 5 (thorough),
+    longer ones built from repeated blocks, and a few hand-picked ones"""
+    if thorough not in RX_POOLS:
         import itertools
         alpha = "ab1-"
-        RX_STRINGS = [""] + ["".join(t) for n in range(1, 6) for t in itertools.product(alpha, repeat=n)] + \
-                     ["aaaaaaa", "ababab", "abababab", "a123", "zzzzzzzz", "a+b", "a.b", "x", "xx", "é", "a b"]
-    return RX_STRINGS
+        pool = [""] + ["".join(t) for n in range(1, 6 if thorough else 5) for t in itertools.product(alpha, repeat=n)]
+        pool += [c * 5 for c in alpha] + [(a + b) * 3 for a in alpha for b in alpha] + [c * 7 for c in "ab"]
+        pool += ["ab-ab", "ab ab", "a-ab1", "aaaaaaa", "ababab", "abababab", "a123", "zzzzzzzz", "a+b", "a.b", "x", "xx", "é", "a b",
+                 "ab 1-", "b-a-b", "1ab1ab"]
+        seen, out = set(), []
+        for t in pool:
+            if t not in seen:
+                seen.add(t)
+                out.append(t)
+        RX_POOLS[thorough] = out
+    return RX_POOLS[thorough]
+
+
+_MATCH_MASKS: dict = {}
+_LEN_MASKS: dict = {}
+
+
+def match_mask(text, pool, key):
+    """bit i set <=> re.search(text, pool[i]) (Python `re` is the trusted regex oracle of the replay); None if invalid"""
+    k = (key, text)
+    m = _MATCH_MASKS.get(k)
+    if m is None:
+        try:
+            srch = re.compile(text).search
+        except re.error:
+            m = -1
+        else:
+            m, bit = 0, 1
+            for t in pool:
+                if srch(t):
+                    m |= bit
+                bit <<= 1
+        if len(_MATCH_MASKS) < 300000:
+            _MATCH_MASKS[k] = m
+    return None if m == -1 else m
+
+
+def len_mask(lo, hi, pool, key):
+    k = (key, lo, hi)
+    m = _LEN_MASKS.get(k)
+    if m is None:
+        m, bit = 0, 1
+        for t in pool:
+            if (lo is None or lo <= len(t)) and (hi is None or len(t) <= hi):
+                m |= bit
+            bit <<= 1
+        _LEN_MASKS[k] = m
+    return m
+
+
+def impl_merge(p, lo, hi):
+    """the real `update_pattern_in_schema` (reached through `to_json_schema`) on the string schema with these keywords:
+    the pattern it leaves and the length keywords that are still there"""
+    from schemathesis.specs.openapi.converter import to_json_schema
+    s = {"type": "string", "pattern": p}
+    if lo is not None:
+        s["minLength"] = lo
+    if hi is not None:
+        s["maxLength"] = hi
+    try:
+        out = to_json_schema(s, nullable_name="nullable")
+    except Exception as e:  # noqa: BLE001
+        return {"error": type(e).__name__}
+    return {"pattern": out.get("pattern"), "minLength": out.get("minLength"), "maxLength": out.get("maxLength")}
+
+
+def impl_anchored(p):
+    """the real `patterns.is_anchored` (None when the tree has no such function: the as-found variant of F5)"""
+    from schemathesis.specs.openapi import patterns
+    f = getattr(patterns, "is_anchored", None)
+    if f is None:
+        return None
+    try:
+        return bool(f(p))
+    except Exception as e:  # noqa: BLE001
+        return {"error": type(e).__name__}
 
 
 def regex_round(chk, drv, cases, mechanism):
-    """cases: [(pattern, lo, hi)]"""
+    """cases: [(pattern, lo, hi)] — `update_quantifier`, `is_anchored` and `update_pattern_in_schema` against the tree
+    model; replay: what the resulting string schema accepts must be accepted by the original one"""
     v = {"zeroMax": chk.variants.get("distribute_zero_max", "asFound"), "atom": chk.variants.get("atom_min_gt_max", "asFound")}
+    vlen = chk.variants.get("length_drop", "asFound")
+    pool = rx_strings(chk.thorough)
     todo = []
     for p, lo, hi in cases:
         try:
@@ -541,11 +667,15 @@ def regex_round(chk, drv, cases, mechanism):
             chk.feature(f"{mechanism}:invalid-pattern")
             continue
         todo.append((p, lo, hi, items))
-    models = drv.batch([("regex", {"v": v, "items": items, "lo": lo, "hi": hi}) for _, lo, hi, items in todo])
-    for (p, lo, hi, items), m in zip(todo, models):
+    # sameText: the re-rendered text coincides with the original (the tree cannot tell `(ab){2}` from a re-rendered `(ab){2}`)
+    models = drv.batch([("merge", {"v": v, "vLen": vlen, "sameText": impl_upd(p, lo, hi) == p, "items": items, "lo": lo, "hi": hi})
+                        for p, lo, hi, items in todo])
+    anchored_seen = set()
+    for (p, lo, hi, items), mm in zip(todo, models):
+        if isinstance(mm, dict) and "__err__" in mm:
+            raise InfraError(f"regex model error {mm} on {p!r}")
+        m = mm["uq"]
         impl = impl_upd(p, lo, hi)
-        if isinstance(m, dict) and "__err__" in m:
-            raise InfraError(f"regex model error {m} on {p!r}")
         if isinstance(impl, dict):
             impl_tree = impl["error"]
         else:
@@ -557,12 +687,55 @@ def regex_round(chk, drv, cases, mechanism):
         chk.case(mechanism, key=[p, lo, hi], nontrivial=changed or isinstance(impl, dict),
                  sample={"pattern": p, "minLength": lo, "maxLength": hi, "impl": impl})
         chk.feature(f"{mechanism}:{'rewritten' if changed else ('error' if isinstance(impl, dict) else 'unchanged')}")
-        if text_divergence(p):
+        divergent = text_divergence(p)
+        if divergent:
             chk.feature(f"{mechanism}:text-divergent-multi-part(outside-the-tree-model)")
         elif ({"ok": m["ok"]} if isinstance(m, dict) and "ok" in m else m) != impl_tree or \
                 (changed and not (isinstance(m, dict) and m.get("rewrote"))):
             chk.disagreement(mechanism, {"pattern": p, "minLength": lo, "maxLength": hi}, m, {"text": impl, "tree": impl_tree})
-        # replay: the rewritten pattern (which replaces pattern + length keywords) must not admit a string the original
+        # is_anchored (decides whether the length keywords may go)
+        if p not in anchored_seen:
+            anchored_seen.add(p)
+            ia = impl_anchored(p)
+            if ia is not None:
+                chk.case(mechanism + ":is_anchored", key=[p], nontrivial=True)
+                chk.feature(f"{mechanism}:is_anchored={ia}:first={items[0][1] if items and items[0][0] == 'at' else '-'}"
+                            f",last={items[-1][1] if items and items[-1][0] == 'at' else '-'}")
+                # one-sided: answering False where the model says True only keeps length keywords that could have gone
+                if ia is True and not mm["anchored"]:
+                    chk.disagreement(mechanism + ":is_anchored", {"pattern": p}, mm["anchored"], ia)
+                elif ia != mm["anchored"]:
+                    chk.feature(f"{mechanism}:is_anchored-more-conservative-than-the-model" if ia is False else
+                                f"{mechanism}:is_anchored-raises")
+        # update_pattern_in_schema on {type: string, pattern, minLength, maxLength}
+        out = impl_merge(p, lo, hi)
+        given = [k for k, x in (("minLength", lo), ("maxLength", hi)) if x is not None]
+        chk.case(mechanism + ":update_pattern_in_schema", key=[p, lo, hi], nontrivial=bool(given) and "error" not in out and out.get("pattern") != p)
+        if "error" not in out and isinstance(out["pattern"], str):
+            left = [k for k in given if out[k] is not None]
+            kept = "kept" if left == given else ("dropped" if not left else "mixed")
+            if given:
+                chk.feature(f"{mechanism}:lengths-{kept}-after-{'rewrite' if out['pattern'] != p else 'no-change'}")
+            if not divergent:
+                mg = mm["merge"]
+                try:
+                    out_tree = sre_items(out["pattern"])
+                except Exception:  # noqa: BLE001
+                    out_tree = "unparsable-output"
+                want = None if not isinstance(mg, dict) else ("kept" if mg["keep"] else "dropped")
+                if out["pattern"] == p and kept == "kept":
+                    # the schema was left alone: always sound, whatever the model would have rewritten
+                    if isinstance(mg, dict) and mg["ok"] != out_tree:
+                        chk.feature(f"{mechanism}:schema-left-alone-where-the-model-rewrites")
+                elif not isinstance(mg, dict) or mg["ok"] != out_tree or (given and kept != want and not (kept == "kept" and want == "dropped")):
+                    chk.disagreement(mechanism + ":update_pattern_in_schema", {"pattern": p, "minLength": lo, "maxLength": hi},
+                                     mg, {"schema": out, "tree": out_tree, "lengths": kept})
+                elif given and kept != want:
+                    chk.feature(f"{mechanism}:lengths-kept-where-the-model-drops-them")
+        elif "error" in out and not divergent and mm["merge"] != out["error"]:
+            chk.disagreement(mechanism + ":update_pattern_in_schema", {"pattern": p, "minLength": lo, "maxLength": hi},
+                             mm["merge"], out)
+        # replay: the rewritten schema (which replaces pattern + length keywords) must not admit a string the original
         # constraints reject; judged by Python's `re` on a fixed string pool
         if isinstance(impl, dict):
             if impl["error"] == "InternalError":
@@ -573,22 +746,28 @@ def regex_round(chk, drv, cases, mechanism):
                 chk.violation(f"C01:update_quantifier:raises-{impl['error']}", f"update_quantifier raises {impl['error']}",
                               {"pattern": p, "minLength": lo, "maxLength": hi})
             continue
-        if not changed:
+        if "error" in out:
+            chk.violation(text_divergence(p) or (KF_F35 if (lo is not None and hi is not None and lo > hi) else
+                                                   f"C01:update_pattern_in_schema:raises-{out['error']}"),
+                          f"to_json_schema raises {out['error']} on a string schema with pattern and length keywords",
+                          {"pattern": p, "minLength": lo, "maxLength": hi})
             continue
-        try:
-            old_c, new_c = re.compile(p), re.compile(impl)
-        except re.error:
+        if out["pattern"] == p and [k for k in given if out[k] is not None] == given:
             continue
-        # (the repaired converter keeps the length keywords next to a pattern that is not anchored at both ends)
-        kept = chk.variants.get("length_drop") == "repaired" and not both_anchored(p)
-        for t in rx_strings():
-            len_ok = (lo or 0) <= len(t) and (hi is None or len(t) <= hi)
-            if new_c.search(t) and (len_ok or not kept) and not (old_c.search(t) and len_ok):
-                chk.violation(pattern_signature(p, lo, hi),
-                              "the rewritten pattern, which replaces pattern + minLength/maxLength, matches a string that the "
-                              "original constraints reject", {"pattern": p, "minLength": lo, "maxLength": hi,
-                                                              "rewritten": impl, "string": t})
-                break
+        key = chk.thorough
+        old_m, new_m = match_mask(p, pool, key), match_mask(out["pattern"], pool, key)
+        if old_m is None or new_m is None:
+            continue
+        accepted_orig = old_m & len_mask(lo, hi, pool, key)
+        accepted_out = new_m & len_mask(out["minLength"], out["maxLength"], pool, key)
+        bad = accepted_out & ~accepted_orig
+        if bad:
+            t = pool[(bad & -bad).bit_length() - 1]
+            chk.violation(pattern_signature(p, lo, hi),
+                          "the string schema left by update_pattern_in_schema (rewritten pattern, remaining length keywords) "
+                          "accepts a string that the original pattern + minLength/maxLength reject",
+                          {"pattern": p, "minLength": lo, "maxLength": hi, "rewritten": out["pattern"],
+                           "left": {k: out[k] for k in ("minLength", "maxLength") if out[k] is not None}, "string": t})
 
 
 def gen_regex_cases(chk, n):
@@ -641,9 +820,13 @@ def schema_features(s, nn):
 LOCATIONS = ("path", "query", "header", "cookie")
 
 
-def load_operation(doc):
+def load_operation(doc, with_security=None):
+    """`with_security`: the schema-level `with_security_parameters` setting (read when the operation is built)"""
     import schemathesis
     schema = schemathesis.openapi.from_dict(copy.deepcopy(doc["raw"]))
+    if with_security is not None:
+        from schemathesis.generation import GenerationConfig
+        schema.generation_config = GenerationConfig(with_security_parameters=with_security)
     return schema, schema[doc["path"]][doc["method"]]
 
 
@@ -802,12 +985,123 @@ def inline_refs(schema, root, depth=6):
     return schema
 
 
-def draw_cases(op, gc, n, seed):
+class Judge:
+    """judges a value against an OpenAPI schema (request side) with the Python oracle at once and with the Lean
+    specification in one batch at the end (`settle`); the two must agree"""
+
+    def __init__(self, cap=4000):
+        self.reqs, self.expect, self.cap = [], [], cap
+
+    def __call__(self, schema, v, nn, root=None):
+        ok = oas_valid(schema, v, nn, root=root)
+        if not ok and has_integral_float(v):
+            # a float without fractional part: also conforming if it conforms when read as an integer (the generator's reading);
+            # such values never travel to the Lean side (see on_wire)
+            ok = oas_valid(schema, v, nn, root=root, intfloat=True)
+        if on_wire(v) and on_wire(schema) and in_spec(schema) and len(self.reqs) < self.cap:
+            self.reqs.append(("valid", {"env": S.lean_env(schema, v, oas="request", nullable=nn, root=root), "schema": schema,
+                                        "instance": v, "fuel": 2 * py_depth(schema) + 12}))
+            self.expect.append((schema, v, ok))
+        return ok
+
+    def settle(self, chk, drv, mechanism):
+        outs = drv.batch(self.reqs)
+        for (schema, v, ok), o in zip(self.expect, outs):
+            if isinstance(o, dict):
+                raise InfraError(f"spec error {o}")
+            if o != ok:
+                raise InfraError(f"Lean request-side validF != extended jsonschema on a drawn value: schema={json.dumps(schema)} "
+                                 f"instance={json.dumps(v)} lean={o} python={ok}")
+        chk.notes.append(f"{mechanism}: {len(self.reqs)} drawn values judged by the Lean specification and the Python oracle alike; "
+                         "values that cannot travel on the wire (huge/inexact floats, surrogates) by the Python oracle only")
+
+
+def draw_values(strat, n, seed):
+    from hypothesis import HealthCheck, Phase, given, settings
+    from hypothesis import seed as hseed
+    out = []
+
+    @hseed(seed)
+    @settings(max_examples=n, database=None, deadline=None, phases=[Phase.generate], suppress_health_check=list(HealthCheck))
+    @given(strat)
+    def t(v):
+        out.append(v)
+
+    t()
+    return out
+
+
+def same_media_type(a, b):
+    """media types compared without parameters and case"""
+    norm = lambda x: x.split(";")[0].strip().lower() if isinstance(x, str) else x  # noqa: E731
+    return norm(a) == norm(b)
+
+
+def body_alternatives(doc):
+    """[(media type, declared schema)] of the operation's request payload"""
+    if "bodies" in doc:
+        return list(doc["bodies"])
+    return [] if doc["body"] is None else [("application/json", doc["body"])]
+
+
+def converted_accepts(schema, nn, raw, v):
+    """does the *converted* schema (what the generator is given) accept v?  None when that cannot be decided"""
+    flat = inline_refs(schema, raw)
+    if "$ref" in json.dumps(flat):
+        return None
+    conv = impl_conv(flat, nn)
+    if "ok" not in conv:
+        return None
+    try:
+        return js_valid_lenient(conv["ok"], v)
+    except Exception:  # noqa: BLE001
+        return None
+
+
+def classify_body(chk, drv, doc, schema, media_type, body):
+    """signature of a generated body that does not conform to the schema declared for its media type.
+    A value the converted schema accepts is a conversion defect (classified by shape as before); a value the converted
+    schema of its own media type rejects was not generated from that schema at all."""
+    nn, raw = doc["nn"], doc["raw"]
+    acc = converted_accepts(schema, nn, raw, body)
+    if acc is False:
+        others = [mt for mt, sch in body_alternatives(doc) if not same_media_type(mt, media_type) and converted_accepts(sch, nn, raw, body)]
+        if others:
+            return ("C01:draw:body-is-an-instance-of-the-schema-of-another-media-type-of-the-operation",
+                    {"conforms_to_the_schema_of": others})
+        return "C01:draw:body-is-not-an-instance-of-the-converted-schema-of-its-media-type", {}
+    sig, extra = None, {}
+    flat = inline_refs(schema, raw)
+    if "$ref" not in json.dumps(flat):
+        r = classify_pattern(flat, nn, body)
+        if r is None:
+            repc = drv.one("conv", {"cfg": cfg_for(chk, flat, nn, vForbid="repaired"), "schema": flat,
+                                    "fuel": 2 * py_depth(flat) + 8})
+            r = classify_rest(flat, nn, body, repc)
+        sig, extra = r
+        if sig.startswith("C01:to_json_schema:converted-schema-accepts"):
+            sig = None
+    return sig or "C01:draw:body-violates-its-schema", extra
+
+
+def explicit_prelude(rng, doc):
+    """(as_strategy keyword, parameter name) of a required query/header parameter that has a sibling, if there is one"""
+    kw = {"query": "query", "header": "headers"}
+    cands = []
+    for loc in kw:
+        decl = [d for l, d in doc["params"] if l == loc]
+        if len(decl) >= 2:
+            cands += [(kw[loc], d["name"]) for d in decl if d.get("required")]
+    return rng.choice(cands) if cands else None
+
+
+def draw_cases(op, gc, n, seed, negative=False, explicit=None):
     from hypothesis import HealthCheck, Phase, given, settings
     from hypothesis import seed as hseed
     from schemathesis.generation import GenerationMode
     out = []
-    strat = op.as_strategy(generation_mode=GenerationMode.POSITIVE, generation_config=gc)
+    strat = op.as_strategy(generation_mode=GenerationMode.NEGATIVE if negative else GenerationMode.POSITIVE, generation_config=gc,
+                           **(explicit or {}))
 
     @hseed(seed)
     @settings(max_examples=n, database=None, deadline=None, phases=[Phase.generate], suppress_health_check=list(HealthCheck))
@@ -823,15 +1117,7 @@ def draws_round(chk, drv, docs, n_draws, mechanism="draws"):
     from schemathesis.core import NOT_SET
     from schemathesis.generation import GenerationConfig
     rng = chk.rng
-    lean_reqs, lean_expect = [], []
-
-    def judge(schema, v, nn, root):
-        ok = oas_valid(schema, v, nn, root=root)
-        if on_wire(v) and on_wire(schema) and in_spec(schema) and len(lean_reqs) < 4000:
-            lean_reqs.append(("valid", {"env": S.lean_env(schema, v, oas="request", nullable=nn, root=root), "schema": schema,
-                                        "instance": v, "fuel": 2 * py_depth(schema) + 12}))
-            lean_expect.append((schema, v, ok))
-        return ok
+    judge = Judge()
 
     for i, doc in enumerate(docs):
         gc = GenerationConfig(allow_x00=rng.random() < 0.5, codec=rng.choice(["utf-8", "utf-8", "ascii"]),
@@ -839,8 +1125,28 @@ def draws_round(chk, drv, docs, n_draws, mechanism="draws"):
         if "gc" in doc:
             gc = GenerationConfig(**doc["gc"])
         nn, raw = doc["nn"], doc["raw"]
+        history = "positive"
+        sec = doc.get("security", [])
+        if sec:
+            chk.feature(f"{mechanism}:security-schemes:with_security_parameters={gc.with_security_parameters}")
         try:
-            _, op = load_operation(doc)
+            _, op = load_operation(doc, gc.with_security_parameters if sec else None)
+            if doc.get("negative_first") or ("gc" not in doc and rng.random() < 0.3):
+                # a history: the same loaded operation serves negative generation first (the strategy caches are shared)
+                history = "negative-then-positive"
+                try:
+                    draw_cases(op, gc, 3, chk.seed * 100003 + i + 7, negative=True)
+                except Exception as e:  # noqa: BLE001 - negative generation is C02's concern; only its side effects matter here
+                    chk.feature(f"{mechanism}:negative-prelude:{type(e).__name__}")
+            explicit = explicit_prelude(rng, doc) if "gc" not in doc and history == "positive" and rng.random() < 0.3 else None
+            if explicit is not None:
+                # another history: the operation first serves a request with an explicitly given parameter (examples do that;
+                # the rest of that location is generated with the name excluded and cached under its own key)
+                history = f"explicit-{explicit[0]}-parameter-then-positive"
+                try:
+                    draw_cases(op, gc, 2, chk.seed * 100003 + i + 11, explicit={explicit[0]: {explicit[1]: "explicit-value"}})
+                except Exception as e:  # noqa: BLE001 - only the side effects on the caches matter
+                    chk.feature(f"{mechanism}:explicit-prelude:{type(e).__name__}")
             cases = draw_cases(op, gc, doc.get("draws", n_draws), chk.seed * 100003 + i)
         except Exception as e:  # noqa: BLE001
             name = type(e).__name__
@@ -848,8 +1154,7 @@ def draws_round(chk, drv, docs, n_draws, mechanism="draws"):
             chk.feature(f"{mechanism}:no-cases:{name}")
             if name in ("Unsatisfiable", "FailedHealthCheck", "Flaky", "SkipTest", "InvalidArgument"):
                 continue  # the generator gave up / contradictory schema: counted, not judged (third-party search limits)
-            schemas = [param_schema(doc, d) for _, d in doc["params"]] + \
-                      ([inline_refs(doc["body"], raw)] if doc["body"] is not None else [])
+            schemas = [param_schema(doc, d) for _, d in doc["params"]] + [inline_refs(sch, raw) for _, sch in body_alternatives(doc)]
             sig = None
             if name == "TypeError" and any(crash_shape(s) for s in schemas):
                 sig = KF_F33
@@ -861,10 +1166,16 @@ def draws_round(chk, drv, docs, n_draws, mechanism="draws"):
                           {"document": raw, "generation": {"allow_x00": gc.allow_x00, "codec": gc.codec}})
             continue
         chk.feature(f"{mechanism}:operations")
+        chk.feature(f"{mechanism}:history={history}")
+        alts = body_alternatives(doc)
+        if len(alts) > 1:
+            chk.feature(f"{mechanism}:operations-with-{len(alts)}-payload-alternatives")
         for case in cases:
             parts = {"path": case.path_parameters, "query": case.query, "header": case.headers, "cookie": case.cookies}
-            rep = {"document": raw, "generation": {"allow_x00": gc.allow_x00, "codec": gc.codec}, "seed": chk.seed * 100003 + i,
-                   "case": {k: (v if on_wire(v) else repr(v)) for k, v in parts.items()}}
+            rep = {"document": raw, "generation": {"allow_x00": gc.allow_x00, "codec": gc.codec,
+                                                   **({"with_security_parameters": gc.with_security_parameters} if sec else {})},
+                   "seed": chk.seed * 100003 + i,
+                   "history": history, "case": {k: (v if on_wire(v) else repr(v)) for k, v in parts.items()}}
             chk.case(mechanism, key=[dumps(raw), repr(parts), repr(case.body)], nontrivial=True,
                      sample={"parts": {k: repr(v)[:200] for k, v in parts.items()}, "body": repr(case.body)[:300]})
             for loc in LOCATIONS:
@@ -874,12 +1185,20 @@ def draws_round(chk, drv, docs, n_draws, mechanism="draws"):
                     if (loc == "path" or d.get("required")) and name not in vals:
                         chk.violation(f"C01:draw:required-{loc}-parameter-missing", f"required {loc} parameter {name!r} is absent",
                                       {**rep, "location": loc, "parameter": name})
+                if gc.with_security_parameters:
+                    for sloc, sname in sec:
+                        if sloc == loc and sname not in decl and not isinstance(vals.get(sname), str):
+                            chk.violation(f"C01:draw:security-{loc}-parameter-missing-although-with_security_parameters-is-on",
+                                          f"the {loc} parameter {sname!r} of a required security scheme is absent or not a string",
+                                          {**rep, "location": loc, "parameter": sname})
                 for name, v in vals.items():
                     if name not in decl:
-                        if loc in ("header", "cookie", "query") and gc.with_security_parameters:
+                        if gc.with_security_parameters and (loc, name) in sec:
+                            chk.feature(f"{mechanism}:security-{loc}-values")
                             continue
-                        chk.violation(f"C01:draw:undeclared-{loc}-parameter", f"{loc} parameter {name!r} is not declared",
-                                      {**rep, "location": loc, "parameter": name})
+                        chk.violation(f"C01:draw:undeclared-{loc}-parameter" + (":security-parameter-although-with_security_parameters-is-off"
+                                                                                if (loc, name) in sec else ""),
+                                      f"{loc} parameter {name!r} is not declared", {**rep, "location": loc, "parameter": name})
                         continue
                     sch = param_schema(doc, decl[name])
                     chk.feature(f"{mechanism}:{loc}-values")
@@ -892,52 +1211,65 @@ def draws_round(chk, drv, docs, n_draws, mechanism="draws"):
                         sig = None
                         p, lo, hi = sch.get("pattern"), sch.get("minLength"), sch.get("maxLength")
                         if isinstance(p, str) and isinstance(impl_upd(p, lo, hi), str) and impl_upd(p, lo, hi) != p:
-                            sig = pattern_signature(p, lo, hi)
+                            # a pattern-merge finding explains the value only if the converted schema lets it through
+                            conv = impl_conv(sch, nn)
+                            try:
+                                explained = "ok" in conv and any(js_valid_lenient(conv["ok"], c) for c in coercions(loc, v))
+                            except Exception:  # noqa: BLE001
+                                explained = False
+                            if explained:
+                                sig = pattern_signature(p, lo, hi)
                         chk.violation(sig or f"C01:draw:{loc}-parameter-value-violates-its-schema",
                                       f"generated {loc} parameter {name!r} = {v!r} does not conform to its declared schema",
                                       {**rep, "location": loc, "parameter": name, "value": v if on_wire(v) else repr(v), "schema": sch})
-            if doc["body"] is not None:
+            body_schema = None
+            if alts:
                 body = case.body
-                required = (doc["raw"]["paths"][doc["path"]]["post"].get("requestBody", {}).get("required", False)
-                            if doc["version"] != "2.0" else
-                            any(p.get("in") == "body" and p.get("required") for p in doc["raw"]["paths"][doc["path"]]["post"]["parameters"]))
+                required = doc["body_required"] if "body_required" in doc else (
+                    doc["raw"]["paths"][doc["path"]]["post"].get("requestBody", {}).get("required", False)
+                    if doc["version"] != "2.0" else
+                    any(p.get("in") == "body" and p.get("required") for p in doc["raw"]["paths"][doc["path"]]["post"]["parameters"]))
                 if body is NOT_SET:
                     chk.feature(f"{mechanism}:body-absent")
                     if required:
                         chk.violation("C01:draw:required-body-missing", "required request body is absent", rep)
                 else:
-                    chk.feature(f"{mechanism}:body-values")
+                    mine = [sch for mt, sch in alts if same_media_type(mt, case.media_type)]
+                    if not mine:
+                        chk.violation("C01:draw:body-media-type-not-declared-by-the-operation",
+                                      f"the case carries media type {case.media_type!r}, which the operation does not declare",
+                                      {**rep, "media_type": case.media_type})
+                        continue
+                    body_schema = mine[0]
+                    chk.feature(f"{mechanism}:body-values" + (f":{case.media_type}" if len(alts) > 1 else ""))
                     try:
-                        ok = judge(doc["body"], body, nn, raw)
+                        ok = judge(body_schema, body, nn, raw)
                     except Exception:  # noqa: BLE001
                         chk.feature(f"{mechanism}:oracle-rejects-schema")
                         ok = True
                     if not ok:
-                        sig, extra = None, {}
-                        flat = inline_refs(doc["body"], raw)
-                        if "$ref" not in json.dumps(flat):
-                            r = classify_pattern(flat, nn, body)
-                            if r is None:
-                                repc = drv.one("conv", {"cfg": cfg_for(chk, flat, nn, vForbid="repaired"), "schema": flat,
-                                                        "fuel": 2 * py_depth(flat) + 8})
-                                r = classify_rest(flat, nn, body, repc)
-                            sig, extra = r
-                            if sig.startswith("C01:to_json_schema:converted-schema-accepts"):
-                                sig = None
-                        chk.violation(sig or "C01:draw:body-violates-its-schema",
-                                      "generated request body does not conform to the declared schema",
-                                      {**rep, "body": body if on_wire(body) else repr(body), "schema": doc["body"], **extra})
+                        sig, extra = classify_body(chk, drv, doc, body_schema, case.media_type, body)
+                        chk.violation(sig, f"generated request body does not conform to the schema declared for its media type "
+                                           f"({case.media_type})",
+                                      {**rep, "media_type": case.media_type, "body": body if on_wire(body) else repr(body),
+                                       "schema": body_schema, **extra})
             # configured string restrictions
-            gov, gov_hdr = [], []
+            gov, gov_hdr, gov_bearer = [], [], []
             for loc in LOCATIONS:
                 for name, v in (parts[loc] or {}).items():
                     d = {dd["name"]: dd for l, dd in doc["params"] if l == loc}.get(name)
+                    if d is None and (loc, name) in sec and isinstance(v, str):
+                        # the string parameter a security scheme adds (same generators as a declared plain string parameter)
+                        if name == "Authorization" and v.startswith("Bearer "):
+                            gov_bearer.append(v)
+                        else:
+                            (gov_hdr if loc in ("header", "cookie") else gov).append(v)
                     if d is not None and isinstance(v, str):
                         sch = param_schema(doc, d)
                         if sch.get("type", "string" if loc in ("header", "cookie") else None) == "string":
                             (gov_hdr if loc in ("header", "cookie") else gov).append(v)
-            if doc["body"] is not None and case.body is not NOT_SET and "$ref" not in json.dumps(doc["body"]):
-                governed_strings(doc["body"], case.body, gov)
+            if body_schema is not None and case.body is not NOT_SET and "$ref" not in json.dumps(body_schema):
+                governed_strings(body_schema, case.body, gov)
             allstr = strings_in([parts, None if case.body is NOT_SET else case.body], [])
 
             def bad_codec(t):
@@ -950,25 +1282,237 @@ def draws_round(chk, drv, docs, n_draws, mechanism="draws"):
             if not gc.allow_x00:
                 if any("\x00" in t for t in gov + gov_hdr):
                     chk.violation("C01:draw:NUL-character-although-allow_x00-is-off", "a generated string value contains \\x00", rep)
+                elif any("\x00" in t for t in gov_bearer):
+                    chk.violation(KF_FC01A, "the Authorization header generated for an http bearer security scheme contains \\x00", rep)
                 elif any("\x00" in t for t in allstr):
                     chk.violation(KF_F39, "a generated string outside any string-typed schema position contains \\x00", rep)
             if gc.codec:
                 if any(bad_codec(t) for t in gov):
                     chk.violation("C01:draw:string-not-encodable-in-the-configured-codec",
                                   f"a generated string value cannot be encoded as {gc.codec}", rep)
-                elif any(bad_codec(t) for t in gov_hdr):
+                elif any(bad_codec(t) for t in gov_hdr + gov_bearer):
                     chk.violation(KF_F40, f"a generated header/cookie value cannot be encoded as {gc.codec}", rep)
                 elif any(bad_codec(t) for t in allstr):
                     chk.violation(KF_F39B, f"a generated string outside any string-typed schema position cannot be encoded as {gc.codec}", rep)
-    outs = drv.batch(lean_reqs)
-    for (schema, v, ok), o in zip(lean_expect, outs):
-        if isinstance(o, dict):
-            raise InfraError(f"spec error {o}")
-        if o != ok:
-            raise InfraError(f"Lean request-side validF != extended jsonschema on a drawn value: schema={json.dumps(schema)} "
-                             f"instance={json.dumps(v)} lean={o} python={ok}")
-    chk.notes.append(f"{mechanism}: {len(lean_reqs)} drawn values judged by the Lean specification and the Python oracle alike; "
-                     "values that cannot travel on the wire (huge/inexact floats, surrogates) by the Python oracle only")
+    judge.settle(chk, drv, mechanism)
+
+
+# ---- mechanism 5: which strategy a body alternative gets, over histories of requests (_get_body_strategy + its cache) ----
+
+class Token:
+    """what the recording strategy factory returns inside `st.just`: the schema the strategy was asked to be built from"""
+
+    def __init__(self, schema, location):
+        self.schema, self.location = schema, location
+
+    def __repr__(self):
+        return f"Token({self.location}, {json.dumps(self.schema, sort_keys=True, default=str)[:120]})"
+
+
+def recording_factory(schema, operation_name, location, media_type, generation_config, custom_formats=None):
+    from hypothesis import strategies as st
+    return st.just(Token(copy.deepcopy(schema), location))
+
+
+def observe_strategy(strat, seed):
+    """{"schema": the schema the strategy was built from, "orNotSet": does it also yield NOT_SET} for a strategy made of the
+    recording factory's `just(Token)` — read structurally, by drawing if the structure is not the expected one"""
+    from schemathesis.core import NOT_SET
+    vals = None
+    try:
+        from hypothesis.strategies._internal.strategies import OneOfStrategy, SampledFromStrategy
+        parts = list(strat.original_strategies) if isinstance(strat, OneOfStrategy) else [strat]
+        if all(isinstance(p, SampledFromStrategy) and len(p.elements) == 1 for p in parts):
+            vals = [p.elements[0] for p in parts]
+    except Exception:  # noqa: BLE001 - other Hypothesis internals: fall back to drawing
+        vals = None
+    if vals is None:
+        vals = draw_values(strat, 24, seed)
+    toks = {id(v): v for v in vals if isinstance(v, Token)}
+    rest = [v for v in vals if not isinstance(v, Token) and v is not NOT_SET]
+    if len(toks) != 1 or rest:
+        return {"unrecognised": repr(vals)[:300]}
+    return {"schema": next(iter(toks.values())).schema, "orNotSet": any(v is NOT_SET for v in vals)}
+
+
+def alt_wire(item):
+    """one element of `operation.body.items` as the model reads it from the *declaration*"""
+    from schemathesis.specs.openapi.parameters import OpenAPI20Body, OpenAPI20CompositeBody, OpenAPI20Parameter
+    if isinstance(item, OpenAPI20CompositeBody):
+        return {"kind": "v2form", "mediaType": item.media_type, "required": True,
+                "formParams": [{"name": p.definition["name"], "required": bool(p.definition.get("required", False)),
+                                "schema": p.definition} for p in item.definition],
+                "supported": list(OpenAPI20Parameter.supported_jsonschema_keywords)}
+    if isinstance(item, OpenAPI20Body):
+        return {"kind": "v2body", "mediaType": item.media_type, "required": bool(item.definition.get("required", False)),
+                "schema": item.definition["schema"]}
+    return {"kind": "v3", "mediaType": item.media_type, "required": bool(item.required), "schema": item.definition.get("schema", {})}
+
+
+def gen_history(rng, n_alts):
+    """requests one loaded operation receives: every alternative at least once with the positive factory, in random order,
+    interleaved with repeats and with requests of the negative factory"""
+    hist = [(i, "positive") for i in range(n_alts)]
+    rng.shuffle(hist)
+    for _ in range(rng.randint(1, 3)):
+        hist.insert(rng.randint(0, len(hist)), (rng.randrange(n_alts), rng.choice(["positive", "negative", "negative"])))
+    return hist
+
+
+def run_history(doc, hist, factory_for_positive, custom=(), on_positive=None):
+    """load the operation afresh and send it the requests of `hist` through the real `_get_body_strategy`"""
+    from hypothesis import strategies as st
+    from schemathesis.generation import GenerationConfig
+    from schemathesis.specs.openapi import _hypothesis as H
+    get_body_strategy = getattr(H, "_get_body_strategy", None)
+    if get_body_strategy is None:
+        raise InfraError("schemathesis.specs.openapi._hypothesis._get_body_strategy (anchor of the body mechanism) is gone")
+    _, op = load_operation(doc)
+    items = list(op.body.items)
+    sentinels = {mt: st.just(("custom-strategy", mt)) for mt in custom}
+    before = {mt: H.MEDIA_TYPES.get(mt) for mt in custom}
+    H.MEDIA_TYPES.update(sentinels)
+    out = []
+    try:
+        for step, (idx, f) in enumerate(hist):
+            factory = factory_for_positive if f == "positive" else H.make_negative_strategy
+            try:
+                strat = get_body_strategy(items[idx], factory, op, GenerationConfig())
+            except Exception as e:  # noqa: BLE001
+                out.append({"error": type(e).__name__})
+                continue
+            if f != "positive":
+                out.append(None)  # negative generation is another property's concern; the request only perturbs the cache
+            elif any(strat is x for x in sentinels.values()):
+                out.append({"custom": items[idx].media_type})
+            else:
+                out.append(on_positive(step, items[idx], strat))
+    finally:
+        for mt, old in before.items():
+            if old is None:
+                H.MEDIA_TYPES.pop(mt, None)
+            else:
+                H.MEDIA_TYPES[mt] = old
+    return items, out
+
+
+def body_round(chk, drv, docs, n_draws, mechanism="body-alternatives"):
+    from schemathesis.core import NOT_SET
+    from schemathesis.specs.openapi import _hypothesis as H
+    rng = chk.rng
+    judge = Judge()
+    reqs, cases = [], []
+    for i, doc in enumerate(docs):
+        seed = chk.seed * 100003 + 50000 + i
+        try:
+            _, op0 = load_operation(doc)
+            wires = [alt_wire(it) for it in op0.body.items]
+        except Exception as e:  # noqa: BLE001
+            raise InfraError(f"generated document does not load: {type(e).__name__}: {e}") from e
+        hist = doc.get("history") or gen_history(rng, len(wires))
+        custom = doc.get("custom", [])
+        if not custom and "history" not in doc and rng.random() < 0.12:
+            custom = [rng.choice(wires)["mediaType"]]
+        _, seen = run_history(doc, hist, recording_factory, custom, lambda step, item, strat: observe_strategy(strat, seed + step))
+        reqs.append(("body", {"cfg": cfg_for(chk, [w.get("schema") for w in wires] + [w.get("formParams") for w in wires], doc["nn"]),
+                              "fuel": 2 * py_depth(wires) + 8, "custom": custom, "alts": wires,
+                              "history": [[idx, f] for idx, f in hist]}))
+        cases.append((doc, hist, custom, wires, seen, seed))
+    models = drv.batch(reqs)
+    for (doc, hist, custom, wires, seen, seed), model in zip(cases, models):
+        if isinstance(model, dict) and "__err__" in model:
+            raise InfraError(f"body model error {model}")
+        nn, raw = doc["nn"], doc["raw"]
+        rep0 = {"document": raw, "history": [[idx, f] for idx, f in hist], "custom_media_types": custom}
+        chk.feature(f"{mechanism}:alternatives={len(wires)}:{wires[0]['kind']}")
+        diff = None
+        for step, ((idx, f), m, o) in enumerate(zip(hist, model, seen)):
+            chk.case(mechanism, key=[dumps(raw), step, hist[: step + 1]], nontrivial=f == "positive",
+                     sample={"alternatives": [w["mediaType"] for w in wires], "history": hist, "step": step, "impl": o if f == "positive" else None})
+            chk.feature(f"{mechanism}:request:{f}" + (":again" if (idx, f) in hist[:step] else ":first"))
+            if f != "positive":
+                continue
+            if o is not None and "error" in o:
+                chk.feature(f"{mechanism}:impl-error:{o['error']}")
+                sig = None
+                for p, lo, hi in G.pattern_requests([wires[idx].get("schema"), wires[idx].get("formParams")]):
+                    if isinstance(impl_upd(p, lo, hi), dict):
+                        sig = text_divergence(p) or (KF_F35 if (lo is not None and hi is not None and lo > hi) else None)
+                if o["error"] == "TypeError" and crash_shape(wires[idx].get("schema")):
+                    sig = KF_F33
+                chk.violation(sig or f"C01:_get_body_strategy:raises-{o['error']}", f"no strategy for a declared payload alternative: {o['error']}",
+                              {**rep0, "step": step})
+                continue
+            if o is not None and "unrecognised" in o:
+                chk.feature(f"{mechanism}:strategy-structure-not-recognised(left-to-the-replay)")
+                continue
+            if "custom" in m:
+                same = o == {"custom": m["custom"]}
+            elif o is None or "schema" not in o:
+                same = False
+            else:
+                same = dumps(o["schema"]) == dumps(m["schema"]) and o["orNotSet"] == m["orNotSet"]
+            if not same and diff is None:
+                diff = step
+                chk.disagreement(mechanism, {**rep0, "step": step, "alternative": wires[idx]["mediaType"]},
+                                 {k: (canon(v) if k == "schema" else v) for k, v in m.items() if k != "factory"},
+                                 o if o is None or "schema" not in o else {"schema": canon(o["schema"]), "orNotSet": o["orNotSet"]})
+        # replay: the same history with the real positive factory; what the strategy of each request yields must conform to the
+        # schema declared for the requested alternative (spec + oracle judge the values the real code produced)
+        declared = dict(body_alternatives(doc))
+
+        def on_positive(step, item, strat, _doc=doc, _seed=seed):
+            try:
+                return {"values": draw_values(strat, n_draws, _seed + step)}
+            except Exception as e:  # noqa: BLE001
+                return {"error": type(e).__name__}
+
+        try:
+            items, outs = run_history(doc, hist, H.make_positive_strategy, custom, on_positive)
+        except Exception as e:  # noqa: BLE001
+            raise InfraError(f"replaying a body history failed: {type(e).__name__}: {e}") from e
+        for step, ((idx, f), o) in enumerate(zip(hist, outs)):
+            if f != "positive" or o is None or "custom" in o:
+                continue
+            mt = items[idx].media_type
+            rep = {**rep0, "step": step, "media_type": mt}
+            if "error" in o:
+                chk.feature(f"{mechanism}:replay:no-values:{o['error']}")
+                continue
+            sch = next(sc for m2, sc in declared.items() if same_media_type(m2, mt))
+            for v in o["values"]:
+                if v is NOT_SET:
+                    chk.feature(f"{mechanism}:replay:body-absent")
+                    if doc.get("body_required", True):
+                        chk.violation("C01:draw:required-body-missing", "the strategy of a required request body yields NOT_SET", rep)
+                    continue
+                chk.feature(f"{mechanism}:replay:body-values:{mt}")
+                try:
+                    ok = judge(sch, v, nn, raw)
+                except Exception:  # noqa: BLE001
+                    chk.feature(f"{mechanism}:oracle-rejects-schema")
+                    continue
+                if not ok:
+                    sig, extra = classify_body(chk, drv, doc, sch, mt, v)
+                    chk.violation(sig, f"the strategy answered for the {mt} alternative yields a body that does not conform to the "
+                                       f"schema declared for {mt}",
+                                  {**rep, "body": v if on_wire(v) else repr(v), "schema": sch, **extra})
+    judge.settle(chk, drv, mechanism)
+
+
+W_BODY_ALTERNATIVES = {
+    "raw": {"openapi": "3.0.2", "info": {"title": "t", "version": "1"}, "paths": {"/r": {"post": {
+        "requestBody": {"required": True, "content": {
+            "application/json": {"schema": {"type": "object", "properties": {"id": {"type": "integer", "minimum": 1, "maximum": 1000}},
+                                            "required": ["id"], "additionalProperties": False}},
+            "text/plain": {"schema": {"type": "string", "pattern": "^[a-z]{3}$"}},
+            "multipart/form-data": {"schema": {"properties": {"n": {"type": "integer"}}, "required": ["n"]}}}},
+        "responses": {"200": {"description": "OK"}}}}}},
+    "path": "/r", "method": "POST", "params": [], "nn": "nullable", "version": "3.0", "body_required": True,
+}
+W_BODY_ALTERNATIVES["bodies"] = [(mt, d["schema"]) for mt, d in
+                                 W_BODY_ALTERNATIVES["raw"]["paths"]["/r"]["post"]["requestBody"]["content"].items()]
+W_BODY_ALTERNATIVES["body"] = W_BODY_ALTERNATIVES["bodies"][0][1]
 
 
 def gen_conv_items(chk, n, spice=0.0):
@@ -1007,6 +1551,18 @@ DRAW_WITNESSES = [
                {"name": "q", "in": "query", "required": True, "schema": {"type": "string"}}],
               {"type": "object", "properties": {"s": {"type": "string"}}, "required": ["s"], "additionalProperties": False}),
      "gc": {"allow_x00": False, "codec": "ascii"}, "draws": 80},
+    # an operation with three payload alternatives (own schema each), served negative generation first
+    {**W_BODY_ALTERNATIVES, "draws": 16, "negative_first": True, "gc": {}},
+    # FC01a: the Authorization header of an http bearer security scheme under allow_x00=False
+    {"raw": {"openapi": "3.0.2", "info": {"title": "t", "version": "1"},
+             "components": {"securitySchemes": {"b": {"type": "http", "scheme": "bearer"}}}, "security": [{"b": []}],
+             "paths": {"/r": {"post": {"parameters": [], "responses": {"200": {"description": "OK"}}}}}},
+     "path": "/r", "method": "POST", "params": [], "body": None, "nn": "nullable", "version": "3.0",
+     "security": [("header", "Authorization")], "gc": {"allow_x00": False, "with_security_parameters": True}, "draws": 100},
+    # word-boundary assertions are not whole-string anchors: the length keywords must survive
+    _doc30([{"name": "tag", "in": "query", "required": True, "schema": {"type": "string", "pattern": "\\b[a-z]+\\b", "maxLength": 5}}],
+           {"type": "object", "properties": {"code": {"type": "string", "pattern": "^[A-Z]+\\b", "minLength": 2, "maxLength": 4}},
+            "required": ["code"], "additionalProperties": False}),
 ]
 
 
@@ -1023,6 +1579,8 @@ def run(chk):
         "the correspondence run (sre_parse on both sides)",
         "values compared through the string coercion of their location: a header/cookie/path/query value may stand for the JSON "
         "number / true / false / null it spells",
+        "a drawn float without fractional part (1.0, 2e61) conforms if it conforms under either reading of `type: integer` "
+        "(draft 4: not an integer; draft 6+ and hypothesis-jsonschema: an integer); such values are judged by the Python oracle only",
     ]
     chk.trusted += ["harness/gens/schemas.py + lean/SV/Spec/JsonSchema.lean (shared reference semantics, self-checked against "
                     "jsonschema on every run)",
@@ -1039,6 +1597,18 @@ def run(chk):
         "C01_pattern_merge_sound: anchored, width-1 repeats, single repeat or multi-part distribution (exact search + range), "
         "new pattern implies old pattern and length within bounds; C01_pattern_merge_keeps_some: the re-rendered pattern stays "
         "satisfiable; witnesses F5, F28, F32, F35, F36",
+        "C01_pattern_schema_merge_sound: the string schema update_pattern_in_schema leaves (rewritten pattern + the length "
+        "keywords that stay) accepts only what pattern + minLength/maxLength accept, under re.search with arbitrary positional "
+        "assertions (^ $ \\A \\Z \\b \\B, one side, none), repaired length-drop site; C01_pattern_merge_search_monotone (any "
+        "anchoring, any repeat width, F32's shape excluded); C01_length_keywords_dropped_only_if_anchored; witness "
+        "C01_pattern_merge_word_boundary_full_false (\\b[a-z]+\\b + maxLength 3 with the length dropped accepts 'ab-ab')",
+        "C01_body_strategy_is_for_own_alternative: over every history of body-strategy requests of one operation (any "
+        "interleaving of alternatives, repeats, positive/negative factories, user-registered media types) each request is "
+        "answered with the strategy built from the requested alternative's own converted schema, NOT_SET branch iff optional; "
+        "C01_body_conforms_to_own_alternative / _to_declared_schema (draw level, relative to the from_schema contract, composed "
+        "with C01_nullable_exact); C01_strategy_cache_transparent + C01_strategy_cache_key_must_separate (a memo table is "
+        "invisible iff its key separates requests that build different things) with the witness "
+        "C01_body_cache_keyed_by_operation_full_false; C01_param_cache_key_determines_schema (factory, location, sorted exclude)",
     ]
     chk.partial += [
         "readOnly inside the equivalence theorem: the fragment of C01_nullable_exact excludes readOnly properties (they have "
@@ -1050,12 +1620,19 @@ def run(chk):
         "not modelled: covered by the draw replay only",
         "the converse direction (an operation with conforming inputs does get cases) is only checked for crashes "
         "(TypeError/InternalError) of the conversion; Unsatisfiable/health-check outcomes are counted, not judged",
+        "body alternatives: form payloads (`type: object` default of OpenAPI 3 forms, the composite Swagger formData object) "
+        "are in the model and in the correspondence but outside C01_body_conforms_to_declared_schema (non-form alternatives "
+        "in the fragment only); prepare_schema is taken as the identity on reference-free schemas there; wildcard media "
+        "types (`*/*`, `application/*`) and the urlencoded post-map are not generated",
     ]
     chk.sampled_only += [
         "instances drawn by hypothesis-jsonschema satisfy the converted schema; allow_x00 / codec restrictions (F39, F39b, F40 found)",
         "get_schema_for_location / make_positive_strategy header-format injection (correspondence on generated documents, "
         "OpenAPI 2.0 / 3.0 / 3.1)",
         "$ref'd components, required body / parameters presence, undeclared names: judged on real as_strategy(POSITIVE) draws",
+        "operations with 2-3 payload alternatives (OpenAPI 3 media types with their own schemas incl. forms, text/plain, xml, "
+        "yaml; Swagger consumes lists and formData): every drawn body is judged against the schema declared for the media type "
+        "of its case; positive draws after negative draws on the same loaded operation (shared strategy caches)",
     ]
     # witnesses first
     wit = [(W_F4, "nullable", False, True, [W_F4_INSTANCE, {}, {"a": 1, "b": 2}]),
@@ -1069,9 +1646,13 @@ def run(chk):
     conv_round(chk, drv, gen_conv_items(chk, chk.budget(150, 1500), spice=0.5), "conv-spiced")
     docs = [G.gen_document(chk.rng, chk.rng.choice(["3.0", "3.0", "2.0", "3.1"])) for _ in range(chk.budget(150, 1500))]
     location_round(chk, drv, docs, "location")
-    ddocs = [G.gen_document(chk.rng, chk.rng.choice(["3.0", "3.0", "2.0"]), body_depth=chk.rng.choice([1, 2]))
-             for _ in range(chk.budget(22, 400))]
+    ddocs = [G.gen_document(chk.rng, chk.rng.choice(["3.0", "3.0", "2.0", "3.1"]), body_depth=chk.rng.choice([1, 2]), multi=0.35,
+                            security=0.25) for _ in range(chk.budget(20, 400))]
     draws_round(chk, drv, DRAW_WITNESSES + ddocs, chk.budget(10, 25))
+    bdocs = [G.gen_document(chk.rng, chk.rng.choice(["3.0", "3.0", "3.1", "2.0"]), body_depth=chk.rng.choice([1, 2]), with_ref=False,
+                            multi=1.0) for _ in range(chk.budget(40, 600))]
+    body_round(chk, drv, [{**W_BODY_ALTERNATIVES, "history": [[0, "positive"], [1, "negative"], [1, "positive"], [2, "positive"],
+                                                              [0, "positive"]]}] + bdocs, chk.budget(3, 6))
     regex_round(chk, drv, REGEX_WITNESSES, "regex-witness")
     ex = exhaustive_regex_cases(chk)
     regex_round(chk, drv, ex, "regex-exhaustive")
@@ -1096,7 +1677,7 @@ def replay(chk, data):
     print("variants exhibited by the tree:", chk.variants)
     if "correspondence" in r and isinstance(r.get("input"), dict):
         r = {**r, **r["input"]}
-    if "schema" in r and "location" not in r:
+    if "schema" in r and "location" not in r and "document" not in r:
         s, nn = r["schema"], r.get("nullable_name", "nullable")
         impl = impl_conv(s, nn, r.get("resp", False), r.get("update_quantifiers", True))
         print("impl now :", json.dumps(impl, ensure_ascii=False))
@@ -1108,14 +1689,16 @@ def replay(chk, data):
             print("OpenAPI schema accepts instance (python oracle):", oas_valid(s, v, nn))
             print("OpenAPI schema accepts instance (Lean spec):",
                   drv.one("valid", {"env": S.lean_env(s, v, oas="request", nullable=nn), "schema": s, "instance": v}))
-    elif "pattern" in r:
+    elif "pattern" in r and "document" not in r:
         p, lo, hi = r["pattern"], r.get("minLength"), r.get("maxLength")
         impl = impl_upd(p, lo, hi)
         print("update_quantifier now:", impl)
+        print("is_anchored now:", impl_anchored(p), " update_pattern_in_schema leaves:", impl_merge(p, lo, hi))
         try:
             items = sre_items(p)
             v = {"zeroMax": chk.variants.get("distribute_zero_max"), "atom": chk.variants.get("atom_min_gt_max")}
-            print("model tree :", json.dumps(drv.one("regex", {"v": v, "items": items, "lo": lo, "hi": hi})))
+            print("model      :", json.dumps(drv.one("merge", {"v": v, "vLen": chk.variants.get("length_drop"), "sameText": impl == p,
+                                                                "items": items, "lo": lo, "hi": hi})))
             if isinstance(impl, str):
                 print("impl tree  :", json.dumps(sre_items(impl)))
         except Exception as e:  # noqa: BLE001
@@ -1123,22 +1706,52 @@ def replay(chk, data):
         if "string" in r and isinstance(impl, str):
             t = r["string"]
             print(f"string {t!r}: matches rewritten={bool(re.search(impl, t))} matches original={bool(re.search(p, t))} length={len(t)}")
+            out = impl_merge(p, lo, hi)
+            if "error" not in out:
+                acc = bool(re.search(out["pattern"], t)) and (out["minLength"] is None or out["minLength"] <= len(t)) and \
+                      (out["maxLength"] is None or len(t) <= out["maxLength"])
+                orig = bool(re.search(p, t)) and (lo is None or lo <= len(t)) and (hi is None or len(t) <= hi)
+                print(f"  accepted by the schema update_pattern_in_schema leaves: {acc}; accepted by the original schema: {orig}")
     elif "document" in r:
         from schemathesis.generation import GenerationConfig
         doc = {"raw": r["document"]}
         doc["path"] = next(iter(doc["raw"]["paths"]))
         doc["method"] = "POST"
-        _, op = load_operation(doc)
+        _, op = load_operation(doc, r.get("generation", {}).get("with_security_parameters"))
+        if "history" in r and isinstance(r["history"], list):
+            # a history of body-strategy requests: which schema each positive request's strategy was built from, and draws
+            from schemathesis.specs.openapi import _hypothesis as H
+            hist = [(i, f) for i, f in r["history"]]
+            custom = r.get("custom_media_types", [])
+            items, seen = run_history(doc, hist, recording_factory, custom, lambda step, item, strat: observe_strategy(strat, step))
+            wires = [alt_wire(it) for it in items]
+            nn = "x-nullable" if "swagger" in doc["raw"] else "nullable"
+            model = drv.one("body", {"cfg": cfg_for(chk, [w.get("schema") for w in wires] + [w.get("formParams") for w in wires], nn),
+                                     "fuel": 2 * py_depth(wires) + 8, "custom": custom, "alts": wires, "history": [[i, f] for i, f in hist]})
+            _, drawn = run_history(doc, hist, H.make_positive_strategy, custom,
+                                   lambda step, item, strat: {"values": [repr(v)[:200] for v in draw_values(strat, 5, step)]})
+            for step, ((i, f), o, m, d) in enumerate(zip(hist, seen, model, drawn)):
+                print(f"step {step}: alternative {i} ({items[i].media_type}) factory={f}")
+                if f == "positive":
+                    print("   impl strategy built from:", json.dumps(o, default=str, ensure_ascii=False)[:600])
+                    print("   model                   :", json.dumps(m, ensure_ascii=False)[:600])
+                    print("   real draws              :", d)
+            return 0
         if "location" in r and "case" not in r:
             print("impl now :", json.dumps(impl_location(op, r["location"]), ensure_ascii=False, default=str)[:3000])
         else:
             gen = r.get("generation", {})
             try:
-                cases = draw_cases(op, GenerationConfig(allow_x00=gen.get("allow_x00", True), codec=gen.get("codec", "utf-8")),
-                                   80 if "seed" not in r else 25, r.get("seed", 0))
+                gcfg = GenerationConfig(allow_x00=gen.get("allow_x00", True), codec=gen.get("codec", "utf-8"))
+                if r.get("history") == "negative-then-positive":
+                    try:
+                        draw_cases(op, gcfg, 3, r.get("seed", 0) + 7, negative=True)
+                    except Exception as e:  # noqa: BLE001
+                        print("negative prelude raises:", type(e).__name__)
+                cases = draw_cases(op, gcfg, 80 if "seed" not in r else 25, r.get("seed", 0))
                 for c in cases[:25]:
-                    print("case:", {"path": c.path_parameters, "query": c.query, "headers": c.headers, "cookies": c.cookies,
-                                    "body": c.body})
+                    print("case:", {"media_type": c.media_type, "path": c.path_parameters, "query": c.query, "headers": c.headers,
+                                    "cookies": c.cookies, "body": c.body})
             except Exception as e:  # noqa: BLE001
                 print("as_strategy / draw raises:", type(e).__name__, str(e)[:500])
     return 0
